@@ -183,6 +183,9 @@ func (info *Info) Encode() []byte {
 		lookupListOffset = total
 		total += len(lookupList)
 	}
+	if featureListOffset > 0xFFFF || lookupListOffset > 0xFFFF {
+		panic("script list and feature list too large")
+	}
 
 	buf := make([]byte, total)
 	copy(buf, []byte{
